@@ -294,7 +294,10 @@ class C11(F.Spec):
                     ev.append((int(p[3]), "chg", int(p[2])))
                 elif p[0] == "ATCFG" and p[1] == "1":
                     f = dict(kv.split("=") for kv in p[2:])
-                    ev.append((int(f["now"]), "cfg", (int(f["active"]), int(f["max"]), f["relay"] != "255")))
+                    # whether the button still acts on its relay is not taken from the device: a button with a relay keeps it unless
+                    # the trigger for one click of its own kind is active (then the single click belongs to the server)
+                    conn = bool(me.get("has_relay")) and not (int(f["active"]) & count_bits[0])
+                    ev.append((int(f["now"]), "cfg", (int(f["active"]), int(f["max"]), conn)))
                 elif p[0] == "CALL" and p[1] == "at" and p[2] == "5":
                     ev.append((int(p[5]), "trig", int(p[4])))
                 elif p[0] == "RELAYHI" and p[1] == "2":
